@@ -287,7 +287,7 @@ class Guards:
             return False, None
         edges = list(dict.fromkeys(edges))
         if not self.cfg.edges_dominate(edges, block):
-            return False, None
+            return self._holds_by_case_split(edges, block, place_for_kill, ignore_write)
         if place_for_kill is not None:
             reach_wo = None
             for kb, kidx, kind in self._killers(place_for_kill):
@@ -302,6 +302,64 @@ class Guards:
                 if any(kb == e[0] for e in edges):
                     return False, ("write to the guarded place in the switch block", kb)
         return True, edges
+
+    def _flag_switches(self):
+        """{bool local with one definition: (definition block, [(switch block, true target, false target)])} for flags tested twice or more"""
+        if getattr(self, "_flags", None) is not None:
+            return self._flags
+        out = {}
+        du, cfg = self.du, self.cfg
+        for sb in cfg.live_blocks():
+            st = cfg.blocks[sb]["term"]
+            if st["k"] != "switch" or st.get("discr_ty") != "bool" or st["discr"].get("k") not in ("copy", "move"):
+                continue
+            ck = du.canon(place_key(st["discr"]))
+            if ck[1]:
+                continue
+            l = ck[0]
+            d = du.unique_def(l)
+            if d is None or self.fn.local_ty(l) != "bool":
+                continue
+            f_t = [tb for val, tb in st["targets"] if val == 0]
+            if not f_t or f_t[0] == st["otherwise"]:
+                continue
+            out.setdefault(l, (d[1], []))[1].append((sb, st["otherwise"], f_t[0]))
+        self._flags = {l: v for l, v in out.items() if len(v[1]) >= 2}
+        return self._flags
+
+    def _holds_by_case_split(self, edges, block, place_for_kill, ignore_write):
+        """correlated branches: `if flag && x == 0 { return } if flag { x - 1 }`. A flag with ONE definition has one value on every path
+        from its definition to `block` that does not pass the definition again; every entry->block path ends in such a stretch when the
+        definition dominates `block`. So: for each value of the flag, remove the edges of the switches on it that contradict the value and
+        the edges back into the defining block; if `block` cannot be reached from the definition without crossing an establishing edge in
+        either case (and no killing write reaches it there), the fact holds."""
+        cfg = self.cfg
+        for l, (db, sws) in self._flag_switches().items():
+            if not cfg.node_dominates(db, block) or db == block:
+                continue
+            into_def = [(p_, db) for p_ in cfg.pred.get(db, [])]
+            ok = True
+            for val in (True, False):
+                contradicting = [(sb, (ff if val else tt)) for sb, tt, ff in sws]
+                removed = list(edges) + contradicting + into_def
+                if block in cfg.reachable_from(db, removed_edges=removed):
+                    ok = False
+                    break
+                if place_for_kill is not None:
+                    for kb, kidx, kind in self._killers(place_for_kill):
+                        if ignore_write is not None and (kb, kidx) == ignore_write:
+                            continue
+                        if kb == block or any(kb == e[0] for e in edges):
+                            ok = False
+                            break
+                        if kb in cfg.reachable_from(db, removed_edges=contradicting + into_def) and block in cfg.reachable_from(kb, removed_edges=removed):
+                            ok = False
+                            break
+                    if not ok:
+                        break
+            if ok:
+                return True, edges
+        return False, None
 
     def variant_guarded(self, place, truth, block):
         """`place` (Option/Result) is known to be the success variant (Some/Ok) == truth at the terminator of `block`"""
